@@ -317,12 +317,23 @@ func ruleT7(c *Ctx) {
 		}
 		info := p.TypesInfo
 		var sites []site
-		var loops []*ast.RangeStmt
+		type fwdLoop struct {
+			key  string
+			body *ast.BlockStmt
+		}
+		var loops []fwdLoop
 		ast.Inspect(fd.Body, func(n ast.Node) bool {
 			switch x := n.(type) {
 			case *ast.RangeStmt:
 				if sel, ok := ast.Unparen(x.X).(*ast.SelectorExpr); ok && sel.Sel.Name == "Operators" {
-					loops = append(loops, x)
+					if id, ok := x.Key.(*ast.Ident); ok && id.Name != "_" {
+						loops = append(loops, fwdLoop{id.Name, x.Body})
+					}
+				}
+			case *ast.ForStmt:
+				// for i := 0; i < len(X.Operators); i++ — the same forward walk written with an index
+				if k, ok := forwardIndexLoopOver(x, "Operators"); ok {
+					loops = append(loops, fwdLoop{k, x.Body})
 				}
 			case *ast.IfStmt:
 				if be, ok := ast.Unparen(x.Cond).(*ast.BinaryExpr); ok && be.Op == token.EQL {
@@ -399,23 +410,22 @@ func ruleT7(c *Ctx) {
 		// forward range whose index selects the matching tail
 		okLoop := false
 		for _, l := range loops {
-			if id, ok := l.Key.(*ast.Ident); ok && id.Name != "_" {
-				ast.Inspect(l.Body, func(n ast.Node) bool {
-					if ie, ok := n.(*ast.IndexExpr); ok {
-						if sel, ok := ast.Unparen(ie.X).(*ast.SelectorExpr); ok && (sel.Sel.Name == "TailExps") {
-							if ix, ok := ie.Index.(*ast.Ident); ok && ix.Name == id.Name {
-								okLoop = true
-							}
-						}
-						if x, ok := ast.Unparen(ie.X).(*ast.Ident); ok && strings.Contains(strings.ToLower(x.Name), "tail") {
-							if ix, ok := ie.Index.(*ast.Ident); ok && ix.Name == id.Name {
-								okLoop = true
-							}
+			key := l.key
+			ast.Inspect(l.body, func(n ast.Node) bool {
+				if ie, ok := n.(*ast.IndexExpr); ok {
+					if sel, ok := ast.Unparen(ie.X).(*ast.SelectorExpr); ok && (sel.Sel.Name == "TailExps") {
+						if ix, ok := ie.Index.(*ast.Ident); ok && ix.Name == key {
+							okLoop = true
 						}
 					}
-					return true
-				})
-			}
+					if x, ok := ast.Unparen(ie.X).(*ast.Ident); ok && strings.Contains(strings.ToLower(x.Name), "tail") {
+						if ix, ok := ie.Index.(*ast.Ident); ok && ix.Name == key {
+							okLoop = true
+						}
+					}
+				}
+				return true
+			})
 		}
 		c.check(okLoop, "T7", "internal/ast."+t.fn+"|left-to-right fold", c.L.Pos(fd.Pos()), "operators must be folded in a forward `for i, op := range Operators` pairing op i with tail i")
 	}
@@ -661,4 +671,48 @@ func ruleT10Layout(c *Ctx) {
 		}
 	}
 	c.floor("T10l", 30)
+}
+
+
+// forwardIndexLoopOver: `for i := 0; i < len(<expr>.<field>); i++ {…}`; returns the index name.
+func forwardIndexLoopOver(fs *ast.ForStmt, field string) (string, bool) {
+	as, ok := fs.Init.(*ast.AssignStmt)
+	if !ok || len(as.Lhs) != 1 || len(as.Rhs) != 1 {
+		return "", false
+	}
+	id, ok := as.Lhs[0].(*ast.Ident)
+	if !ok {
+		return "", false
+	}
+	if bl, ok := as.Rhs[0].(*ast.BasicLit); !ok || bl.Value != "0" {
+		return "", false
+	}
+	cond, ok := fs.Cond.(*ast.BinaryExpr)
+	if !ok || cond.Op != token.LSS {
+		return "", false
+	}
+	if ci, ok := cond.X.(*ast.Ident); !ok || ci.Name != id.Name {
+		return "", false
+	}
+	call, ok := cond.Y.(*ast.CallExpr)
+	if !ok || len(call.Args) != 1 {
+		return "", false
+	}
+	if fn, ok := call.Fun.(*ast.Ident); !ok || fn.Name != "len" {
+		return "", false
+	}
+	if field != "" {
+		sel, ok := ast.Unparen(call.Args[0]).(*ast.SelectorExpr)
+		if !ok || sel.Sel.Name != field {
+			return "", false
+		}
+	}
+	inc, ok := fs.Post.(*ast.IncDecStmt)
+	if !ok || inc.Tok != token.INC {
+		return "", false
+	}
+	if ii, ok := inc.X.(*ast.Ident); !ok || ii.Name != id.Name {
+		return "", false
+	}
+	return id.Name, true
 }
